@@ -735,6 +735,18 @@ func packagePrepareWalkFn(root string, ignoreRules *ignorefiles.Ruleset, emptied
 			return fmt.Errorf("failed to get absolute path for root directory %q: %w", root, err)
 		}
 		reAbsPath := filepath.Join(absRoot, relPath)
+		if info.Mode()&os.ModeSymlink != 0 {
+			// The package directory is about to be renamed, and a bundle is
+			// meant to be relocatable: an absolute target, even one that
+			// currently points into this directory, would be left dangling.
+			target, err := os.Readlink(reAbsPath)
+			if err != nil {
+				return fmt.Errorf("failed to read symlink %q: %w", relPath, err)
+			}
+			if filepath.IsAbs(target) {
+				return fmt.Errorf("module package path %q is a symlink with an absolute target", relPath)
+			}
+		}
 		realPath, err := filepath.EvalSymlinks(reAbsPath)
 		if err != nil {
 			return fmt.Errorf("failed to get real path for sub-path %q: %w", relPath, err)
